@@ -18,23 +18,26 @@
 (*   penorder "ok" | "above" | "huge"               penalty order order+1 .. order+3; 2^32-1 *)
 (*   order    "ok" | "huge31" | "huge32" | "wrap"   spline order 2^31-1, 2^32-1, 2^31+3 (2*order+2 wraps to 0, 0, 8 in 32 bits) *)
 (*   monodim  "none" | "valid" | "ndim" | "huge"                           *)
+(*   smoothval "pos" | "zero" | "neg" | "neginf" | "nan"   value of the (first) smoothing strength; none of them is   *)
+(*            inconsistent with the other arguments, but only a positive one has a defined meaning                    *)
 (***************************************************************************)
 EXTENDS Integers, Sequences, FiniteSets, TLC, Json
 
 Classes == [weights |-> {"ok", "short", "long", "empty"}, ncoord |-> {"ok", "less", "more"}, coordlen |-> {"ok", "short"},
             index |-> {"ok", "atrange"}, norder |-> {"ok", "less", "more"}, nknotv |-> {"ok", "less", "more"},
             knots |-> {"ok", "unsorted", "toofew", "few"}, nsmooth |-> {"one", "ndim", "other", "empty"}, npen |-> {"one", "ndim", "other", "empty"},
-            penorder |-> {"ok", "above", "huge"}, monodim |-> {"none", "valid", "ndim", "huge"}, order |-> {"ok", "huge31", "huge32", "wrap"}]
+            penorder |-> {"ok", "above", "huge"}, monodim |-> {"none", "valid", "ndim", "huge"}, order |-> {"ok", "huge31", "huge32", "wrap"},
+            smoothval |-> {"pos", "zero", "neg", "neginf", "nan"}]
 Args == DOMAIN Classes
 Good == [weights |-> "ok", ncoord |-> "ok", coordlen |-> "ok", index |-> "ok", norder |-> "ok", nknotv |-> "ok", knots |-> "ok",
-         nsmooth |-> "one", npen |-> "one", penorder |-> "ok", monodim |-> "none", order |-> "ok"]
-IsGood(a, v) == v \in (CASE a = "nsmooth" -> {"one", "ndim"} [] a = "npen" -> {"one", "ndim"} [] a = "monodim" -> {"none", "valid"} [] OTHER -> {"ok"})
+         nsmooth |-> "one", npen |-> "one", penorder |-> "ok", monodim |-> "none", order |-> "ok", smoothval |-> "pos"]
+IsGood(a, v) == v \in (CASE a = "nsmooth" -> {"one", "ndim"} [] a = "npen" -> {"one", "ndim"} [] a = "monodim" -> {"none", "valid"} [] a = "smoothval" -> Classes.smoothval [] OTHER -> {"ok"})
 BadArgs(c) == {a \in Args : ~IsGood(a, c[a])}
 
 (* the outcomes a combination permits: "complete", "reject"; never anything else (crash, out-of-bounds, hang) *)
 Allowed(c) ==
     LET bad == BadArgs(c) IN
-    IF bad = {} THEN {"complete"}
+    IF bad = {} THEN (IF c.smoothval \in {"pos", "zero"} THEN {"complete"} ELSE {"complete", "complete-unpenalised", "reject"})   \* a strength without a meaning: anything safe
     ELSE IF bad \subseteq {"penorder"} THEN {"reject", "complete-unpenalised"}        \* rejected, or treated as a vanishing penalty
     ELSE IF bad \subseteq {"knots", "penorder"} /\ c.knots \in {"few", "ok"} THEN {"reject", "complete", "complete-unpenalised"}
          \* order+2 .. 2*order+1 knots: a basis exists but nothing is fully supported - "too few" is a matter of reading: refuse, or complete safely
